@@ -16,6 +16,8 @@ const NAMES: &[&str] = &[
     "a", "A", "b", "B", "z", "Z", "a1", "a01", "a001", "a2", "a10", "a9", "A1", "A01", "A10", "a_1", "a_01", "a_b", "a_B", "aB", "Ab", "AB", "ab", "_a", "_A", "__a", "_1", "_01", "a1b", "a01b", "a1B", "a10b", "a2b",
     "x9", "x10", "x09", "x009", "X9", "X10", "x1y2", "x1y10", "x01y2", "r#type", "r#match", "r#a", "r#A1", "zz", "zZ", "Zz", "ZZ", "z_", "z_z", "z0", "z00", "abc", "ABC", "Abc", "aBC", "abc1", "abc01", "abc10", "u8",
     "U8", "u16", "u32", "u128", "U16", "v1_2", "v1_10", "v01_2", "m", "M", "n0", "N0", "n_0", "self_", "Self_", "super_x", "crate_x",
+    // long digit runs (beyond u32, near u64)
+    "v5", "v4294967295", "v4294967296", "v10000000000", "m20240101120000_a", "m20240101120000_b", "m20240101120001_a", "v9223372036854775807", "v9223372036854775808",
 ];
 
 #[derive(Debug, Clone, Copy, PartialEq, Eq)]
